@@ -249,11 +249,11 @@ def write_input(path, graphs, chunks):
             fh.write(json.dumps(d, separators=(",", ":")) + "\n")
 
 
-def run_replay(ctx, graphs, chunks, tag):
+def run_replay(ctx, graphs, chunks, tag, soft_cap=6):
     vin, vout = ctx.path("c04_in_%s.ndjson" % tag), ctx.path("c04_out_%s.ndjson" % tag)
     write_input(vin, graphs, chunks)
     rc, out = ctx.go_test(PKG, FILES, "^TestZZVerifC04Replay$", env={"VERIF_IN": vin, "VERIF_OUT": vout,
-                                                                      "VERIF_WORKERS": "5"})
+                                                                      "VERIF_WORKERS": "5", "VERIF_SOFT_CAP": str(soft_cap)})
     rows = vlib.read_ndjson(vout)
     summ = [r for r in rows if r.get("t") == "summary"]
     if rc != 0 or not summ:
@@ -443,7 +443,7 @@ def run(ctx):
             minis.append({"t": "c", "u": sb["u"], "id": len(minis), "variant": sb["variant"], "start": sb["state"], "steps": []})
             who.append(i)
         sg = [gmap[u] for u in sorted({sb["u"] for sb in softs})]
-        _, ssumm = run_replay(ctx, sg, minis, "soft_repro")
+        _, ssumm = run_replay(ctx, sg, minis, "soft_repro", soft_cap=100000)
         seen = {(r["chunk"], r["alt"], r["what"]) for r in ssumm["_soft"]}
         for k, sb in enumerate(softs):
             if (k, sb["alt"], sb["what"]) not in seen:
@@ -464,12 +464,15 @@ def run(ctx):
             continue
 
         def relevant(c):
-            if c["u"] not in unis or nsteps(c) < 2:
+            if c["u"] not in unis:
                 return False
             if flag == "oddlease":
+                # a <<"macx">> lease in effect in the start state, or given out on the way
                 a = c["steps"]
-                return any(a[j] == 4 and a[j + 2] == 7 for j in range(0, len(a), 7)) or 7 in gmap[c["u"]].keys[c["start"]][2:]
-            return True
+                nn = len(gmap[c["u"]].uni["names"])
+                return 7 in gmap[c["u"]].keys[c["start"]][nn:] or any(
+                    a[j] == 4 and a[j + 2] == 7 for j in range(0, len(a) - 7, 7))
+            return nsteps(c) >= 2
 
         cand = [c for c in chunks if relevant(c)]
         rng.shuffle(cand)
@@ -617,7 +620,7 @@ def replay(ctx, path):
             raise g
         c = {"t": "c", "u": ck["u"], "id": 0, "variant": ck["variant"], "start": g.index[tuple(ck["start"])],
              "steps": [e[:6] + [g.index[tuple(e[6])]] for e in ck["steps"]]}
-        bads, summ = run_replay(ctx, [g], [c], "replay")
+        bads, summ = run_replay(ctx, [g], [c], "replay", soft_cap=100000)
         if rec.get("t") == "soft":      # a lookup under another spelling, in the state just built
             bads = [x for x in summ["_soft"] if x["alt"] == rec["alt"] and x["call"] == rec["call"]]
         print(json.dumps({"steps": rec.get("history") or rec.get("call"), "expected": rec.get("want"),
